@@ -425,13 +425,13 @@ pub fn run(ctx: &Ctx) -> Vec<Eng> {
             a
         });
     }
-    let (hz, k) = if ctx.thorough { (64, 3) } else { (40, 2) };
+    let (hz, k) = if ctx.thorough { (48, 3) } else { (40, 2) };
     let mut e3 = Eng::new(
         "c10-deviations",
-        "all histories of exactly H events differing from the default stream P(1 s, cycle {0,1,-2,3}) in at most k positions, deviations {N, E1, P(0.25 s), P(2 s), P(1 us), P(1 h), P(1 s + 2^32 ns)}; 5 streams",
+        "all histories of exactly H events differing from the default stream P(1 s, cycle {0,1,-2,3}) in at most k positions, deviations {N, E1, P(0.25 s), P(2 s), P(1 us), P(1 h), P(1 s + 2^32 ns), P(2^24+1 ns), P(2^31 ns)}; 5 streams",
         &format!("H={} k={}", hz, k),
     );
-    let cases = deviation_cases(hz, 7, k);
+    let cases = deviation_cases(hz, 9, k);
     let cyc = [0.0f32, 1.0, -2.0, 3.0];
     for kind in 0..5 {
         par_cases(&mut e3, &cases, budget, |c, e| {
@@ -445,7 +445,9 @@ pub fn run(ctx: &Ctx) -> Vec<Eng> {
                     3 => Ev::P(2 * S, v),
                     4 => Ev::P(1000, v),
                     5 => Ev::P(3600 * S, v),
-                    _ => Ev::P(S + (1i64 << 32), v),
+                    6 => Ev::P(S + (1i64 << 32), v),
+                    7 => Ev::P((1i64 << 24) + 1, v),
+                    _ => Ev::P(1i64 << 31, v),
                 };
             }
             e.executions += 1;
